@@ -17,7 +17,10 @@ SPEC = dict(
           "exit kind {fallthrough, break, continue, return, raise E1, raise E2 with detail+data, raise(), runtime error} x "
           "14 except-clause sets (none, bare, one type, two types, with/without `as e`, `e`, `as e`, several clauses) x "
           "otherwise x finally x context {top level, for-in loop, condition loop, function, range loop in function}; the "
-          "same exits inside handler / otherwise / finally; range, if and list/map loop families; random nestings of "
+          "same exits inside handler / otherwise / finally; re-entrant evaluation (a recursive or mutually recursive call from "
+          "finally / except / otherwise re-evaluates the statement whose return/break/continue/error is still travelling); "
+          "except type strings in interpolated, raw and single-quoted form x handler shapes x raise form; "
+          "range, if and list/map loop families; random nestings of "
           "if/loop/try/function up to depth 4 (3000 quick, 100000 thorough). Compared: ordered marker trace, final value, "
           "error TYPE (no message, no position). Non-trivial = the model's trace has at least two entries."),
     exhaustive="exit kind x except-clause set x otherwise x finally x context, and the range/if/list/map families",
